@@ -196,6 +196,17 @@ def make_dense(time_div):
         s = fold.sum(0)
         s[s == 0] = 1
         check(np.allclose(pcn, fold / s), "normalised pitch-class roll")
+        # drum channel: with a channel column, notes on channel 9 (and only those) are left out by default
+        nad = np.array([(p0, k0 / time_div, d0 / time_div, v0, "a", 0), (p1, k1 / time_div, d1 / time_div, v1, "b", 10),
+                        (36, k0 / time_div, d0 / time_div, 100, "d", 9)],
+                       dtype=[("pitch", "i4"), ("onset_sec", "f4"), ("duration_sec", "f4"), ("velocity", "i4"), ("id", "U8"), ("channel", "i4")])
+        prd, idxd = must_not_raise(M.compute_pianoroll, nad, time_unit="sec", time_div=time_div, remove_silence=False, return_idxs=True,
+                                   _what="compute_pianoroll(channel column)")
+        check(np.array_equal(prd.toarray(), dense), "the drum channel is not (or more than the drum channel is) removed from the roll")
+        check(sorted(int(r[3]) for r in idxd) == sorted([p0, p1]), "index rows with a drum channel present", idxd.tolist())
+        prk = must_not_raise(M.compute_pianoroll, nad, time_unit="sec", time_div=time_div, remove_silence=False, remove_drums=False,
+                             _what="compute_pianoroll(remove_drums=False)")
+        check(int((prk.toarray()[36] != 0).sum()) >= d0, "remove_drums=False drops the drum note")
         # a repeated pitch across an entirely silent frame must come back as separate notes
         rep = np.zeros((128, 7), dtype=int)
         rep[p0, 0:2] = v0
